@@ -6,6 +6,8 @@ from .canon import dec as C_dec
 import copy
 
 OP_GROUPS = ["net", "xform", "ssm", "cir", "td", "tran", "imp", "sig", "ld", "file"]
+# groups with many leaf kinds and short menu items are drawn more often, so that step kinds are balanced
+GROUP_WEIGHT = {"net": 4, "xform": 2, "cir": 2, "ld": 2}
 
 
 def plan(seed, overrides=None):
@@ -15,15 +17,21 @@ def plan(seed, overrides=None):
         "clients": rc.randint(2, 5),
         "steps_per_client": rc.randint(2, 8),
         "groups": sorted(rc.sample(OP_GROUPS, rc.randint(3, len(OP_GROUPS)))),
+        "group_weights": True,
         "degenerate_rate": rc.choice([0.0, 0.1, 0.1, 0.25]),
         "nest_p": rc.choice([0.0, 0.2, 0.4, 0.6]),
         "wrap_p": rc.choice([0.0, 0.3, 0.6]),
-        "fault_mode": rc.choice(["none", "none", "interrupt", "io", "mixed"]),
+        "fault_mode": rc.choice(["none", "none", "interrupt", "interrupt", "io", "mixed", "mixed"]),
         "buffer_size": rc.choice([1, 2, 3, 7, 16, 64, 512, 8192]),
         "n_nets": rc.randint(1, 3),
         "n_cirs": rc.randint(1, 3),
         "share_p": rc.choice([0.5, 0.8, 1.0]),
     }
+    if rc.random() < 0.3:
+        # "cut" runs: short histories whose point is an operation cut short part-way (interrupt@k placed uniformly
+        # inside the call, or a raising callback), balanced over op kinds, followed by the same call again
+        cfg.update({"cut_mode": True, "clients": rc.randint(1, 2), "steps_per_client": rc.randint(2, 5),
+                    "groups": sorted(rc.sample(OP_GROUPS, rc.randint(1, 2))), "fault_mode": "interrupt", "nest_p": 0.0})
     if overrides:
         cfg.update(overrides)
     recipes = {}
@@ -167,7 +175,7 @@ def _script(r, client, world, counter):
     guard = 0
     while len(out) < budget and guard < 50:
         guard += 1
-        g = r.choice(groups)
+        g = r.choice([x for x in groups for _ in range(GROUP_WEIGHT.get(x, 1))])
         net = r.choice(world["nets"])
         cir = r.choice(world["cirs"])
         nrec = world["recipes"][net]
@@ -426,7 +434,7 @@ def _place_faults(r, steps, cfg):
     cands = [s for s in _all_steps(steps) if not s.get("nested")]
     if not cands:
         return
-    n_faults = r.randint(1, 3)
+    n_faults = r.randint(1, 4)
     # >= 60 % of the steps of a fault-injecting run stay fault free
     n_faults = min(n_faults, max(1, int(0.4 * len(cands))))
     for _ in range(n_faults):
@@ -442,10 +450,51 @@ def _place_faults(r, steps, cfg):
         free = [s for s in cands if "fault" not in s and s["op"] != "fs.put"]
         if not free:
             return
-        s = r.choice(free)
-        # k is log-distributed: early lines (argument handling) and deep lines both get hit
-        k = int(round(2 ** r.uniform(0, 9)))
-        s["fault"] = {"kind": "interrupt", "k": k, "exc": r.choice(["interrupt", "interrupt", "interrupt", "memory", "key", "type", "os", "linalg"])}
+        # balanced over op kinds: first a kind that occurs in this run, then one of its steps
+        kinds = sorted({_kind_key(x) for x in free})
+        kk = r.choice(kinds)
+        s = r.choice([x for x in free if _kind_key(x) == kk])
+        if cfg.get("cut_mode"):
+            # the same call once more, fault free, right after the cut one (top level only)
+            for lst in (steps,):
+                if s in lst:
+                    again = {k2: v for k2, v in s.items() if k2 not in ("fault", "nested", "wrap")}
+                    again["id"] = s["id"] + "r"
+                    lst.insert(lst.index(s) + 1, again)
+        if s["op"] in seam_ops_all() and s["op"] != "sc.foreign_ctx" and r.random() < 0.3:
+            # a user-supplied callable (solver / input signal / mapper / dump function) raises in mid-analysis
+            s["fault"] = {"kind": "seam-raise", "at": r.choice([0, 0, 1, 2]), "exc": r.choice(["interrupt", "key", "type", "os", "memory", "linalg"])}
+            continue
+        s["fault"] = {"kind": "interrupt", "k": interrupt_k(r, s), "exc": r.choice(["interrupt", "interrupt", "interrupt", "memory", "key", "type", "os", "linalg"])}
+
+
+def _kind_key(s):
+    a = s.get("a", {})
+    return s["op"] + "|" + str(a.get("f") or a.get("q") or "")
+
+
+_LINECOUNTS = None
+
+
+def interrupt_k(r, s):
+    """70 %: uniform inside the call (1 .. 90th percentile of the measured line count of this op kind, see
+    tools_linecounts.py); 30 %: log-distributed, so that the first lines (argument handling) stay covered"""
+    global _LINECOUNTS
+    if _LINECOUNTS is None:
+        import json
+        import os
+        p = os.path.join(os.path.dirname(os.path.abspath(__file__)), "linecounts.json")
+        _LINECOUNTS = json.load(open(p)) if os.path.exists(p) else {}
+    a = s.get("a", {})
+    key = s["op"] + "|" + str(a.get("f") or a.get("q") or "")
+    lc = _LINECOUNTS.get(key)
+    if lc and lc[1] >= 2 and r.random() < 0.7:
+        return r.randint(1, min(int(lc[1]), 6000))
+    return int(round(2 ** r.uniform(0, 9)))
+
+
+def seam_ops_all():
+    return SEAM_OPS
 
 
 def gen_io_fault(r, writing):
